@@ -28,6 +28,25 @@ func VerifDir() string {
 	return "/verif"
 }
 
+// BuildDir is where scratch output, replay files and evidence parts go
+// (default <verif>/build; VERIF_BUILD overrides it so that concurrent runs
+// against scratch trees do not collide).
+func BuildDir() string {
+	if d := os.Getenv("VERIF_BUILD"); d != "" {
+		return d
+	}
+	return filepath.Join(VerifDir(), "build")
+}
+
+// EvidenceDir: default <verif>/evidence; VERIF_EVIDENCE_DIR overrides it (runs
+// against mutated scratch trees must not overwrite the committed evidence).
+func EvidenceDir() string {
+	if d := os.Getenv("VERIF_EVIDENCE_DIR"); d != "" {
+		return d
+	}
+	return filepath.Join(VerifDir(), "evidence")
+}
+
 func RepoDir() string {
 	if d := os.Getenv("VERIF_REPO"); d != "" {
 		return d
@@ -207,7 +226,7 @@ func (m *Monitor) Violation(signature, what string, witness any) bool {
 		return true
 	}
 	m.nreplay++
-	dir := filepath.Join(VerifDir(), "build", "replay", m.ID)
+	dir := filepath.Join(BuildDir(), "replay", m.ID)
 	_ = os.MkdirAll(dir, 0o755)
 	name := fmt.Sprintf("%s%s-seed%d-%d.json", m.ID, dashPart(m.Part), Seed(), m.nreplay)
 	path := filepath.Join(dir, name)
@@ -282,9 +301,9 @@ func (m *Monitor) Finish() int {
 	b, _ := json.MarshalIndent(ev, "", " ")
 	var path string
 	if m.Part == "" {
-		path = filepath.Join(VerifDir(), "evidence", m.ID+".json")
+		path = filepath.Join(EvidenceDir(), m.ID+".json")
 	} else {
-		path = filepath.Join(VerifDir(), "build", "parts", m.ID+"."+m.Part+".json")
+		path = filepath.Join(BuildDir(), "parts", m.ID+"."+m.Part+".json")
 	}
 	_ = os.MkdirAll(filepath.Dir(path), 0o755)
 	if err := os.WriteFile(path, b, 0o644); err != nil {
